@@ -22,7 +22,7 @@ def run(ck):
     cs = vf.read_ndjson(cases)
     x = [c for c in cs if c["kind"] == "cross" and c["ok"] and c["tid"] == 7 and c["t2"] == 5 and c["v"] % 2 == 0][0]
     ck.sample({"cross_load": {"written_from_type": 7, "loaded_as_type": 5, "expected_array_layer": x["layers"][-1]}})
-    bins = io.build_io(ck, ["asan"] if ck.quick else ["asan", "rel", "dbg"])
+    bins = io.build_io(ck, ["asan", "rel"] if ck.quick else ["asan", "rel", "dbg"])
     io.roundtrip(ck, bins, cases, only="io/")
     gold = os.path.join(vf.ROOT, "golden")
     for fl, b in bins.items():
